@@ -8,7 +8,7 @@ Open Scope Z_scope.
 Lemma flight_facts : forall g t th p n c cur, Inv g -> nth_error (threads g) t = Some th ->
   t_pc th = FWalk p n c cur ->
   exists hp, get_hook g p = Some hp /\ h_mu hp = Some t /\ h_refs hp = 0 /\ tokens g p = n /\
-             0 < n /\ forwarded p hp = true /\ reach g p cur /\ borrow_ok g c (Some cur).
+             0 < n /\ forwarded p hp = true /\ path1 g p cur /\ borrow_ok g c (Some cur).
 Proof. intros. apply (inv_flight g (invF g H)). exists th; auto. Qed.
 
 Lemma step_FWalk_hop : forall g t th p n c cur hk r g',
@@ -49,7 +49,7 @@ Proof.
     + intros ci rh Hb B. eapply borrow_ok_frame; eauto.
     + intros p0 n0 c0 cur0 E. inversion E; subst p0 n0 c0 cur0. clear E.
       exists hp. repeat split; auto.
-      * eapply reach_mono; [exact L|]. eapply reach_right; eauto.
+      * eapply path1_mono; [exact L|]. eapply path1_right; eauto.
       * eapply (borrow_ok_frame g g'); [exact L| |].
         { intros ci cl _ B. exists cl. auto. }
         destruct c as [ci|]; [|simpl in A8; discriminate].
@@ -194,6 +194,7 @@ Proof.
   intros g t th p n c cur hk g' I Hth Hpc Hx Hf Hr Hs Hm. unfold step in Hs. rewrite Hth, Hpc, Hx in Hs.
   destruct (h_mu hk) eqn:Hmu; [discriminate|]. rewrite Hf, Hr in Hs. inversion Hs; subst g'; clear Hs.
   destruct (flight_facts g t th p n c cur I Hth Hpc) as (hp & A1 & A2 & A3 & A4 & A5 & A6 & A7 & A8).
+  apply path1_reach in A7.
   eapply (fwalk_finish g _ t th p n c cur hk hk hp None I Hth Hpc Hx Hmu A1 A2 A3 A4 A5 A6).
   - reflexivity.
   - cbn. unfold get_hook in Hx, A1. rewrite (upd_id _ _ _ _ Hx). rewrite (upd_const _ _ _ _ _ A1). reflexivity.
@@ -214,6 +215,7 @@ Proof.
   intros g t th p n c cur hk g' I Hth Hpc Hx Hf Hs Hm. unfold step in Hs. rewrite Hth, Hpc, Hx in Hs.
   destruct (h_mu hk) eqn:Hmu; [discriminate|]. rewrite Hf in Hs. inversion Hs; subst g'; clear Hs.
   destruct (flight_facts g t th p n c cur I Hth Hpc) as (hp & A1 & A2 & A3 & A4 & A5 & A6 & A7 & A8).
+  apply path1_reach in A7.
   assert (Hne : cur <> p) by (intros ->; congruence).
   (* the borrowed client keeps the target alive *)
   assert (R1 : 1 <= h_refs hk).
@@ -429,7 +431,7 @@ Proof.
            exists hk3. split. apply (fm_ghp g g' p hk hk3 Hp Hh).
            split. reflexivity. split. exact R2. split. symmetry; exact Hacct. split. exact Hn.
            split. exact Hfw3. split.
-           { eapply reach_left; [|constructor]. exists hk3. split. apply (fm_ghp g g' p hk hk3 Hp Hh). auto. }
+           { exists r. split; [|constructor]. exists hk3. split. apply (fm_ghp g g' p hk hk3 Hp Hh). auto. }
            eapply (borrow_ok_frame g g'); [exact L | intros ci0 cl _ A; exists cl; auto | exact Hbor].
         -- intros p0 rh0 c0 E. discriminate.
     + (* resolved to nil: the references are dropped *)
